@@ -58,6 +58,8 @@ EXTERNAL = {
     '.flush#zlib': ['zlib.error'],
     '.replace#datetime': ['ValueError'],
     '.index': ['ValueError'],
+    '.to_bytes': ['OverflowError'],          # int.to_bytes: value does not fit / negative
+    '.from_bytes': [],
     '.remove#list': ['ValueError'],
     '.format#numeric-on-str': ['ValueError'],
 }
@@ -447,6 +449,19 @@ class Escape:
             key = call.func.id
         if key is None:
             d = U.call_name(call)
+            # Unicode*Error constructors take exactly 5 (4) positional arguments: anything else is a TypeError at the raise site
+            if name in ('UnicodeEncodeError', 'UnicodeDecodeError', 'UnicodeTranslateError') and not any(
+                    isinstance(a, ast.Starred) for a in call.args):
+                need = 4 if name == 'UnicodeTranslateError' else 5
+                if len(call.args) != need or call.keywords:
+                    out.add(self._item(fi, call, 'TypeError', '%s %s (needs exactly %d arguments)' % (fi.loc(call), norm_text(call)[:60], need), 'external'))
+            # a plain logging.Logger method rejects keyword arguments other than exc_info/stack_info/extra/stacklevel
+            if isinstance(call.func, ast.Attribute) and call.func.attr in ('debug', 'info', 'warning', 'error', 'exception', 'critical', 'log') \
+                    and isinstance(call.func.value, ast.Name) and any(k.arg not in (None, 'exc_info', 'stack_info', 'extra', 'stacklevel') for k in call.keywords):
+                r = self.repo.resolve_name(fi.module, call.func.value.id)
+                if r is not None and r[0] == 'const' and isinstance(r[2], ast.Call) and dotted(r[2].func) == 'logging.getLogger':
+                    out.add(self._item(fi, call, 'TypeError', '%s %s (plain logging.Logger takes no format keywords)' % (
+                        fi.loc(call), norm_text(call)[:60]), 'external'))
             self.unknown_external[d] = self.unknown_external.get(d, 0) + 1
             return out
         types = list(self.external[key])
@@ -472,6 +487,10 @@ class Escape:
                 types = [t for t in types]
             if key == '.decode' and isinstance(enc, ast.Constant) and str(enc.value).lower().replace('-', '').replace('_', '') in ('latin1', 'iso88591'):
                 types = [t for t in types if not t.startswith('Unicode')]
+        if key == '.to_bytes':
+            # int.to_bytes(length, byteorder); repository classes' own to_bytes() take no such arguments
+            if not (len(call.args) >= 2 or any(k.arg == 'byteorder' for k in call.keywords)):
+                types = []
         if key in ('min', 'max'):
             a = call.args[0] if call.args else None
             if len(call.args) != 1 or isinstance(a, (ast.Tuple, ast.List)) or any(k.arg == 'default' for k in call.keywords):
